@@ -93,6 +93,7 @@ class Ent:
 class UseStmt:
     module: Ent
     only: list = None  # None = whole module; else list of (local_name, remote Ent)
+    renames: list = None  # whole module with a rename list: [(local_name, exported name (lower), remote Ent)]
 
 
 class Scope:
@@ -123,8 +124,10 @@ class Scope:
         for u in self.uses:
             exp = u.module.inner.exported()
             if u.only is None:
+                ren = {rn: loc.lower() for loc, rn, _ in (u.renames or [])}
                 for n, e in exp.items():
-                    out.setdefault(n, e)
+                    # 'use m, loc => n': the entity is accessible as loc, not as n
+                    out.setdefault(ren.get(n, n), e)
             else:
                 for loc, rem in u.only:
                     out[loc.lower()] = rem
@@ -210,7 +213,7 @@ class Builder:
         self.top_scopes = []
         self.cur = None  # current FileModel
         self.stats = {"homonyms": 0, "decoys": 0, "renames": 0, "only": 0, "reexport": 0, "inherited": 0, "shadow": 0, "constructs": 0,
-                      "member_chain": 0, "same_line_dups": 0}
+                      "member_chain": 0, "same_line_dups": 0, "quote_mix": 0, "unnamed_interfaces": 0, "io_end_file": 0, "rename_lists": 0, "double_names": 0}
         self.construct_id = 0
         self.loopvars = []
         self.scope_stack = []
@@ -332,10 +335,34 @@ class Builder:
             vis_by_ent = {}
             for n2, e2 in vis.items():
                 vis_by_ent.setdefault(id(e2), set()).add(n2)
-            whole_ok = all((n not in vis or vis[n] is e) and n not in forbid and vis_by_ent.get(id(e), {n}) == {n} for n, e in exp.items())
+            # ... so a second name for an entity is allowed only where no host scope knows either spelling
+            host_names = set(scope.parent.accessible()) if scope.parent is not None else set()
+            allow_double = self.opts.get("double_names", True) and self.d_bool(2)
+
+            def name_ok(e, n):
+                have = vis_by_ent.get(id(e), {n})
+                if have == {n}:
+                    return True
+                return allow_double and not ((have | {n}) & host_names)
+
+            whole_ok = all((n not in vis or vis[n] is e) and n not in forbid and name_ok(e, n) for n, e in exp.items())
+            if whole_ok and any(vis_by_ent.get(id(e), {n}) != {n} for n, e in exp.items()):
+                self.stats["double_names"] += 1
             if whole_ok and self.d_bool(2):
-                scope.uses.append(UseStmt(m, None))
-                self.emit("use ", Ref(m, "usemod"), kind="use", depth=depth)
+                cands = [n for n, e in sorted(exp.items()) if id(e) not in vis_by_ent] if self.opts.get("rename_lists", True) else []
+                if cands and self.d_bool(3):
+                    # rename list without ONLY: the whole module, one entity under another local name
+                    n = self.d_pick(cands)
+                    rem = exp[n]
+                    loc = self.fresh(avoid=set(vis) | forbid | set(exp))
+                    scope.uses.append(UseStmt(m, None, [(loc, n, rem)]))
+                    self.emit("use ", Ref(m, "usemod"), ", ", Ref(rem, "alias", loc), " => ", Ref(rem, "remote", n if rem.name.lower() != n else rem.name),
+                              kind="use", depth=depth)
+                    self.stats["renames"] += 1
+                    self.stats["rename_lists"] += 1
+                else:
+                    scope.uses.append(UseStmt(m, None))
+                    self.emit("use ", Ref(m, "usemod"), kind="use", depth=depth)
                 if any(e.scope is not m.inner for e in exp.values()):
                     self.stats["reexport"] += 1
                 continue
@@ -357,8 +384,10 @@ class Builder:
                 l = loc.lower()
                 if l in forbid or (l in vis and vis[l] is not rem) or any(l == o[0].lower() for o in only):
                     continue
-                if vis_by_ent.get(id(rem), {l}) != {l} or any(o[1] is rem for o in only):
+                if not name_ok(rem, l) or any(o[1] is rem for o in only):
                     continue
+                if vis_by_ent.get(id(rem), {l}) != {l}:
+                    self.stats["double_names"] += 1
                 only.append((loc, rem))
                 if not first:
                     toks.append(", ")
@@ -395,6 +424,7 @@ class Builder:
         self.gen_spec(sc, 1, module=True)
         procs = self.plan_procs(sc, 1)
         self.emit_pending_interface(sc, 1)
+        self.emit_unnamed_interfaces(sc, procs, 1)
         for e in list(sc.declared.values()):
             if e.kind in ("subroutine", "function", "interface") and e.vis is not None:
                 self.emit(f"{e.vis} :: ", Ref(e, "visref"), kind="vis", depth=1)
@@ -642,6 +672,41 @@ class Builder:
         self.emit(*toks, kind="decl", depth=depth + 1)
         self.emit("end interface ", Ref(g, "endname"), kind="close-interface", depth=depth, closes=g)
 
+    def emit_unnamed_interfaces(self, sc, procs, depth):
+        """Interface blocks without a name of their own: a defined-operator interface that repeats its generic spec on
+        the END statement (F2003) and an abstract interface with one prototype (an interface body is a scoping unit
+        without host association)."""
+        if not self.opts["interfaces"]:
+            return
+        fns = [p for p in procs if p.kind == "function" and not p.attrs.get("bound_to") and 1 <= len(p.dummies) <= 2
+               and all(not d.attrs.get("class") for d in p.dummies)]
+        if fns and self.d_bool(3):
+            f = self.d_pick(fns)
+            self.nops = getattr(self, "nops", 0) + 1
+            op = ".op" + "abcdefghijklmnopqrstuvwxyz"[self.nops % 26] * (1 + self.nops // 26) + "."
+            spec = f"operator({op})" if self.d_bool(2) else f"operator ( {op} )"
+            self.emit(f"interface {spec}", kind="open-interface", depth=depth)
+            self.emit("module procedure ", Ref(f, "modproc"), kind="decl", depth=depth + 1)
+            self.emit("end interface" if self.d_bool(4) else f"end interface {spec}", kind="close-interface", depth=depth)
+            self.stats["unnamed_interfaces"] += 1
+        if self.d_bool(4):
+            pn = self.name_for(sc, allow_homonym=False, prefix="proto_")
+            pr = self.new_ent(pn, "proto", sc)
+            sc.declared[pn.lower()] = pr
+            psc = Scope("interface-body", pr, None)
+            pr.inner = psc
+            dn = self.fresh(avoid={pn.lower()})
+            d = self.new_ent(dn, "dummy", psc, typ=T_INT, writable=False)
+            psc.declared[dn.lower()] = d
+            self.emit("abstract interface", kind="open-interface", depth=depth)
+            self.push(psc)
+            self.emit("subroutine ", Ref(pr, "decl"), "(", Ref(d, "use", d.name), ")", kind="open-proto", depth=depth + 1)
+            self.emit(f"{T_INT}, intent(in) :: ", Ref(d, "decl"), kind="decl", depth=depth + 2)
+            self.emit("end subroutine ", Ref(pr, "endname"), kind="close-proto", depth=depth + 1)
+            self.pop()
+            self.emit("end interface", kind="close-interface", depth=depth)
+            self.stats["unnamed_interfaces"] += 1
+
     def gen_proc_body(self, p, depth, allow_internal=True):
         psc = p.inner
         sc = p.scope
@@ -838,10 +903,37 @@ class Builder:
         if k == 13 or True:
             # a statement mentioning names inside a character literal and a comment (must not count)
             vs = self.vars_of(sc, T_INT) + self.vars_of(sc, T_REAL)
+            if self.d_bool(6):
+                # I/O statements whose first word is END or looks like a block keyword (must not close or open anything)
+                iv = self.vars_of(sc, T_INT)
+                form = self.d_int(0, 5)
+                if form <= 2 and iv:
+                    n, e = self.d_pick(iv)
+                    self.emit(["end file ", "endfile ", "rewind "][form], Ref(e, "use", n), kind="exec", depth=depth, simple=True)
+                else:
+                    self.emit(["end file 10", "endfile (10)", "end file (unit=10)", "backspace 10", "end file(10)", "flush (10)"][form],
+                              kind="exec", depth=depth, simple=True)
+                self.stats["io_end_file"] += 1
+                return
             if vs:
                 n, e = self.d_pick(vs)
-                s = self.emit("print *, ", Ref(e, "use", n), f", '{n} + {n}'", kind="exec", depth=depth, simple=True)
-                s.comment = f"{n} is printed, {n}+{n}"
+                # (literal before the name, literal after it, trailing comment): both quote characters, a quote of the
+                # other kind inside a literal, a doubled quote, '!' inside a literal, and the same characters in the comment
+                style = self.d_int(0, 6)
+                before, after, comment = [
+                    (None, f"'{n} + {n}'", f"{n} is printed, {n}+{n}"),
+                    (None, f"'{n} + {n}'", f"{n} is printed, {n}+{n}"),
+                    (f"\"it's {n} =\"", None, f"don't change {n} after this & that; really"),
+                    (f"'say \"{n}\"'", None, f"the \"{n}\" above is text"),
+                    (f"'{n}''s value'", f"\"{n}\"\"{n}\"", f"{n}'s value, {n}"),
+                    (f"\"stop! {n}\"", f"'{n}!'", f"{n}! done"),
+                    (f"'a \"{n}\" b'", f"\"c '{n}' d\"", f"'{n}' and \"{n}\" aren't names; & more"),
+                ][style]
+                toks = ["print *, "] + ([before, ", "] if before else []) + [Ref(e, "use", n)] + ([", ", after] if after else [])
+                s = self.emit(*toks, kind="exec", depth=depth, simple=True)
+                s.comment = comment
+                if style >= 2:
+                    self.stats["quote_mix"] += 1
                 return
             self.emit("continue", kind="exec", depth=depth, simple=True)
 
@@ -1256,7 +1348,8 @@ def _gfortran_check(rendered, workdir, std):
             with open(p, "w", newline="") as fh:
                 fh.write(rendered.files[n].replace("\r\n", "\n").replace("\r", "\n"))
             paths.append(p)
-        extra = ["-fd-lines-as-comments"] if rendered.layout.fixed else []
+        # free form: the 132-column limit of F2018 (lifted in F2023) is not what is being validated
+        extra = ["-fd-lines-as-comments"] if rendered.layout.fixed else ["-ffree-line-length-none"]
         p = subprocess.run(["gfortran", "-fsyntax-only", f"-std={std}", "-J", d] + extra + paths, capture_output=True, text=True)
         return None if p.returncode == 0 else p.stderr
     finally:
